@@ -46,7 +46,8 @@ CLAIMED["C13"] = dict(
          "arguments in both forms; after each step the representation invariant, the documented affine image (independent box "
          "oracle), return identity, in-place == copy attribute by attribute and original-untouched are unsat queries; degenerate "
          "(zero factor, decided by a fork on the symbolic factor) and malformed arguments must be refused in both forms with the "
-         "object unchanged. 2-step (thorough: 3-step) histories mix the forms to show the invariant is closed.",
+         "object unchanged. 2-step (thorough: 3-step) histories mix the forms to show the invariant is closed. A concrete binary64 "
+         "sub-check (h_float_degenerate, not solver-decided) covers non-zero factors whose image collapses only in floating point.",
     ref="DESIGN.md section 2 / C13",
     note=NOTE_COMMON + "; meshes WITH subregions use concrete scale factors (several signs/anisotropies) because the constructor's "
          "lattice checks on a symbolically scaled box are beyond z3's nonlinear reach; regions and meshes without subregions use symbolic factors",
